@@ -334,7 +334,9 @@ def scriptSpec (ops : Array Op) (res : Array Seen) (late : List (Nat × Seen)) (
       | .read, .err k | .readbg, .err k =>
         if k != "enomem" then
           errKinds := errKinds ++ [k]
-          if op.kind == .read && closedAt.isNone && !(connClosed.contains op.h) then closedAt := some i
+          -- (only an error returned at once dates the close; a call that blocked first, or a
+          -- background Read, got its error at an unknown later time)
+          if op.kind == .read && r != .blocked && closedAt.isNone && !(connClosed.contains op.h) then closedAt := some i
           if op.kind == .readbg then out := { out with tags := "bgread:woken-by-error" :: out.tags }
       | .readbg, .data _ _ => out := { out with tags := "bgread:woken-by-data" :: out.tags }
       | _, _ => pure ()
